@@ -180,10 +180,14 @@ func opWith(op byte, operands []*big.Int) []byte {
 
 func addrWord(a common.Address) *big.Int { return new(big.Int).SetBytes(a[:]) }
 
-func callTargets() []*big.Int {
+func callTargets(thorough bool) []*big.Int {
 	t := []*big.Int{addrWord(addrC), addrWord(addrSuicide), addrWord(addrWriter), addrWord(addrRevert), addrWord(addrEOA), addrWord(addrNone)}
-	for i := 1; i <= 9; i++ { // precompiles 1..8 and the first non-precompile
-		t = append(t, big.NewInt(int64(i)))
+	pre := []int64{1, 3, 4, 5, 9} // ecrecover, ripemd (the touch exception), identity, modexp, first non-precompile
+	if thorough {
+		pre = []int64{1, 2, 3, 4, 5, 6, 7, 8, 9}
+	}
+	for _, i := range pre {
+		t = append(t, big.NewInt(i))
 	}
 	return t
 }
@@ -253,7 +257,7 @@ func singleOps(thorough bool) [][]byte {
 			vals = []*big.Int{nil}
 		}
 		for _, g := range gasArgs {
-			for _, to := range callTargets() {
+			for _, to := range callTargets(thorough) {
 				for _, v := range vals {
 					for _, m := range memArgs {
 						t := []*big.Int{g, to}
@@ -302,7 +306,9 @@ func word(v *big.Int) []byte {
 	return w[:]
 }
 
-func precompileInputs(thorough bool) [][]byte {
+// precompileInputs returns the inputs given to every address 1..9 and the modexp length lattice that is
+// only given to address 5.
+func precompileInputs(thorough bool) (generic, modexp [][]byte) {
 	var out [][]byte
 	for n := 0; n <= 200; n++ {
 		out = append(out, make([]byte, n), bytes.Repeat([]byte{0xff}, n), bytes.Repeat([]byte{0x01}, n))
@@ -327,6 +333,7 @@ func precompileInputs(thorough bool) [][]byte {
 			out = append(out, cat(ec[:32], word(big.NewInt(27)), word(r), word(s)))
 		}
 	}
+	generic, out = out, nil
 	// modexp: (baseLen, expLen, modLen) lattice x tails
 	lens := []*big.Int{big.NewInt(0), big.NewInt(1), big.NewInt(32), big.NewInt(33), big.NewInt(64), big.NewInt(65), big.NewInt(1024), big.NewInt(1025),
 		pow2(16), pow2(20), pow2(32), dec(pow2(64)), pow2(64), new(big.Int).Add(pow2(64), big.NewInt(1)), pow2(255), dec(pow2(256))}
@@ -347,5 +354,5 @@ func precompileInputs(thorough bool) [][]byte {
 	for n := 0; n <= 96; n += 7 {
 		out = append(out, bytes.Repeat([]byte{0x01}, n))
 	}
-	return out
+	return generic, out
 }
